@@ -24,6 +24,7 @@ import (
 	"testing"
 	"time"
 
+	"github.com/mycoria/mycoria/config"
 	"github.com/mycoria/mycoria/m"
 	"github.com/mycoria/mycoria/peering"
 
@@ -339,7 +340,11 @@ func TestC16(t *testing.T) {
 			chosen[0], chosen[2] = chosen[2], chosen[0]
 		}
 		for i := 0; i < n; i++ {
-			nd, err := vn.AddNode(fmt.Sprintf("n%d", i), chosen[i], vnet.NodeOpts{})
+			var st config.Store
+			if c.Chance("node.lite", 1, 4) {
+				st.Router.Lite = true
+			}
+			nd, err := vn.AddNode(fmt.Sprintf("n%d", i), chosen[i], vnet.NodeOpts{Store: st})
 			if err != nil {
 				c.Fatalf("node: %v", err)
 			}
@@ -372,7 +377,7 @@ func TestC16(t *testing.T) {
 				return a, b
 			}
 			live := w.live()
-			kind := c.Weighted("event", 5, 4, 2, 2, 3, 3, 2, 2, 3, 3, 3, 3)
+			kind := c.Weighted("event", 5, 4, 2, 2, 3, 3, 2, 2, 3, 3, 3, 3, 2)
 			if kind == 11 && len(live) == 0 {
 				kind = 0
 			}
@@ -490,6 +495,43 @@ func TestC16(t *testing.T) {
 				cc.closed[side] = true
 				w.closeEnds(cc, side == 0, side == 1)
 				c.Class("slow-close-with-reconnect")
+			case 12: // a lot of gossip: 70 routes into the /12 of a router that is not linked yet, learned over a live peer
+				done := false
+				for i, nd := range w.nodes {
+					links := nd.Peer.GetLinks()
+					if len(links) == 0 || done {
+						continue
+					}
+					via := links[c.Pick("flood.via", len(links))]
+					j := c.Int("flood.target", 0, n-2)
+					if j >= i {
+						j++
+					}
+					if nd.Peer.GetLink(w.nodes[j].IP()) != nil {
+						continue
+					}
+					base := w.nodes[j].IP().As16()
+					added := 0
+					for k := 0; k < 70; k++ {
+						a := base
+						a[2], a[3], a[14], a[15] = byte(k), 0xee, byte(k>>8), byte(k+1)
+						dst := netip.AddrFrom16(a)
+						e := m.RoutingTableEntry{DstIP: dst, NextHop: via.Peer(), Source: m.RouteSourceGossip, Expires: time.Now().Add(time.Hour)}
+						e.Path.Hops = []m.SwitchHop{
+							{Router: nd.IP(), ForwardLabel: via.SwitchLabel(), Delay: 5},
+							{Router: via.Peer(), ForwardLabel: 7, ReturnLabel: 8, Delay: 5},
+							{Router: dst, ReturnLabel: 9},
+						}
+						if ok, _ := nd.Rtr.Table().AddRoute(e); ok {
+							added++
+						}
+					}
+					w.log("gossip flood at n%d: %d routes into the /12 of n%d via peer %s", i, added, j, via.Peer())
+					done = true
+				}
+				if done {
+					c.Class("gossip-flood-into-a-future-peers-prefix")
+				}
 			case 10: // gossip arrives: a route to one live peer that leads over another live peer
 				done := false
 				for i, nd := range w.nodes {
